@@ -37,9 +37,19 @@ def _template(w):
                 and [norm(a) for a in it.args] == ["self.atom_types",
                                                    "self.coords"]
                 and isinstance(target, ast.Tuple) and len(target.elts) == 2
-                and all(isinstance(t, ast.Name) for t in target.elts)):
+                and isinstance(target.elts[0], ast.Name)):
             raise Unknown
-        return {target.elts[0].id: "atom_type", target.elts[1].id: "coords"}
+        c = target.elts[1]
+        if isinstance(c, ast.Name):
+            return {target.elts[0].id: "atom_type", c.id: "coords"}
+        if isinstance(c, (ast.Tuple, ast.List)) and len(c.elts) == 3 and all(
+                isinstance(x, ast.Name) for x in c.elts):
+            # (x, y, z) unpacked in the loop header
+            roles = {target.elts[0].id: "atom_type"}
+            for i, x in enumerate(c.elts):
+                roles[x.id] = ("coords", i)
+            return roles
+        raise Unknown
 
     def val(e, roles=None):
         if isinstance(e, ast.Constant) and isinstance(e.value, str):
@@ -57,7 +67,7 @@ def _template(w):
                     out.append(("hole", v.value, spec))
             return out
         if isinstance(e, ast.BinOp) and isinstance(e.op, ast.Add):
-            return val(e.left, roles) + val(e.right, roles)
+            return rotate(val(e.left, roles) + val(e.right, roles))
         if isinstance(e, ast.IfExp):
             return merge(val(e.body, roles), val(e.orelse, roles))
         if isinstance(e, ast.Name):
@@ -74,13 +84,45 @@ def _template(w):
                 inner = env[arg.id]
                 if len(inner) == 1 and inner[0][0] == "replist":
                     return [("rep", inner[0][1] + sep, inner[0][2])]
+                if len(inner) == 1 and inner[0][0] == "seq":
+                    items, rep = inner[0][1], inner[0][2]
+                    out = []
+                    for i, it_ in enumerate(items):
+                        if i:
+                            out += sep
+                        out += it_
+                    if rep is not None:
+                        # sep before every repeated element; a trailing
+                        # separator literal is rotated in by `rotate`
+                        out.append(("rep", sep + rep[0], rep[1], "lead"))
+                    return out
                 raise Unknown
             if isinstance(arg, (ast.ListComp, ast.GeneratorExp)):
                 return [("rep", comp(arg)[0][1] + sep, comp(arg)[0][2])]
             raise Unknown
         if isinstance(e, (ast.ListComp, ast.GeneratorExp)):
             return comp(e)
+        if isinstance(e, (ast.List, ast.Tuple)) and not any(
+                isinstance(x, ast.Starred) for x in e.elts):
+            return [("seq", [val(x, roles) for x in e.elts], None)]
         raise Unknown
+
+    def rotate(pieces):
+        """[.., rep(sep + L), lit(sep)] -> [.., lit(sep), rep(L + sep)]: the
+        same text for one or more repetitions, in the line-oriented form."""
+        out = list(pieces)
+        for i in range(len(out) - 1):
+            p, q = out[i], out[i + 1]
+            if p[0] == "rep" and len(p) == 4 and q[0] == "lit" and p[1] and \
+                    p[1][0][0] == "lit" and q[1].startswith(p[1][0][1]):
+                sep_txt = p[1][0][1]
+                rest = q[1][len(sep_txt):]
+                new = [("lit", sep_txt),
+                       ("rep", p[1][1:] + [("lit", sep_txt)], p[2])]
+                if rest:
+                    new.append(("lit", rest))
+                return out[:i] + new + out[i + 2:]
+        return out
 
     def comp(c):
         if len(c.generators) != 1 or c.generators[0].ifs:
@@ -111,6 +153,25 @@ def _template(w):
             elif isinstance(st, ast.AugAssign) and isinstance(
                     st.op, ast.Add) and isinstance(st.target, ast.Name):
                 env[st.target.id] = env.get(st.target.id, []) + val(st.value)
+            elif isinstance(st, ast.Expr) and isinstance(
+                    st.value, ast.Call) and isinstance(
+                    st.value.func, ast.Attribute) and isinstance(
+                    st.value.func.value, ast.Name) and \
+                    st.value.func.attr in ("extend", "append") and \
+                    len(st.value.args) == 1:
+                name = st.value.func.value.id
+                cur = env.get(name)
+                if not (cur and len(cur) == 1 and cur[0][0] == "seq"
+                        and cur[0][2] is None):
+                    raise Unknown
+                if st.value.func.attr == "append":
+                    env[name] = [("seq", cur[0][1] + [val(st.value.args[0])],
+                                  None)]
+                else:
+                    r_ = val(st.value.args[0])
+                    if not (len(r_) == 1 and r_[0][0] == "replist"):
+                        raise Unknown
+                    env[name] = [("seq", cur[0][1], (r_[0][1], r_[0][2]))]
             elif isinstance(st, ast.If):
                 before = {k: list(v) for k, v in env.items()}
                 r1 = run(st.body)
@@ -227,18 +288,21 @@ def run(prog: Program, res: Result, tier: str) -> None:
     line = reps[0][1] if len(reps) == 1 else []
     loopvars = reps[0][2] if len(reps) == 1 else {}
     holes = [p for p in line if p[0] == "hole"]
-    specs = [(norm(h[1]), h[2]) for h in holes
-             if isinstance(h[1], ast.Subscript)
-             and isinstance(h[1].value, ast.Name)
-             and loopvars.get(h[1].value.id) == "coords"]
-    inst = f"coordinate fields {specs}"
-    idx = []
-    for h in holes:
-        if (norm(h[1]), h[2]) in specs:
+    def coord_index(h):
+        e = h[1]
+        if isinstance(e, ast.Subscript) and isinstance(e.value, ast.Name) \
+                and loopvars.get(e.value.id) == "coords":
             try:
-                idx.append(const(h[1].slice))
+                return const(e.slice)
             except Exception:
-                idx.append(None)
+                return None
+        if isinstance(e, ast.Name) and isinstance(
+                loopvars.get(e.id), tuple):
+            return loopvars[e.id][1]
+        return "no"
+    specs = [(norm(h[1]), h[2]) for h in holes if coord_index(h) != "no"]
+    inst = f"coordinate fields {specs}"
+    idx = [coord_index(h) for h in holes if coord_index(h) != "no"]
     ok = len(specs) == 3 and len({sp for _, sp in specs}) == 1 and \
         idx == [0, 1, 2]
     if ok:
